@@ -72,7 +72,9 @@ def model_line(l):
     if kind == 5 or kind == 10:
         return vlib.case_line([15], [[1, r[0]] + [0] * r[0] + r[1:] for r in ops])
     if kind == 11:      # an arc built by C: one creation in module 1, n clones (each of the latest handle), then every handle released (calls view of C10)
-        v, n = ops[0][0], (ops[0][1] if len(ops[0]) > 1 else 0)
+        if not ops or not ops[0]:
+            return "210 |"
+        v, n = ops[0][0], max(0, min(2000, ops[0][1] if len(ops[0]) > 1 else 0))
         return vlib.case_line([210], [[0, 1, v]] + [[6, i] for i in range(n)])
     if kind == 9:       # a callback built by C, fed by Rust's FeedCallback::feed_into (method 2 of the feed model)
         return vlib.case_line([15], [[0, 0, r[0], 2] + r[1:] for r in ops])
@@ -86,7 +88,9 @@ def compare(l, impl_rows, model_rows):
         try:
             mr = [[int(x) for x in r.split()] for r in (model_rows or "").split(" ; ")]
             calls = mr[1::2]
-            v, n = ops0[0][0], (ops0[0][1] if len(ops0[0]) > 1 else 0)
+            if not ops0 or not ops0[0]:
+                return impl_rows.strip() == ""
+            v, n = ops0[0][0], max(0, min(2000, ops0[0][1] if len(ops0[0]) > 1 else 0))
             want = "%d %d %d" % ((n + 1) * v, sum(c[0] for c in calls), sum(c[1] for c in calls))
         except Exception:
             return False
